@@ -8,7 +8,6 @@ From V Require Import Base.Int Base.IntLemmas Base.IO Base.Utf8 Gen.ScanTables G
 From V Require Model.Parsed Proofs.C14.
 Import ListNotations.
 Open Scope Z_scope.
-Set Default Timeout 60.
 
 Notation parsed := Model.Parsed.parsed.
 Notation pput := Model.Parsed.pput.
